@@ -571,6 +571,25 @@ func (w *World) checkProperty(p, tier string, seed int, g *generated, reg *Regis
 			}
 		}
 	}
+	// new obligations of a claimed clause (see the group rule below) get the long retry too
+	// before they can be reported
+	{
+		claimed := map[string]bool{}
+		for name, e := range reg.Obligations {
+			if contractDerived(e.Kind) && serves(e.Props, p) {
+				claimed[groupOf(name, e.Kind)] = true
+			}
+		}
+		for _, oc := range outcomes {
+			if oc.reg || oc.ok || oc.o.Cover || inRetry[oc.o.Name] || !contractDerived(oc.o.Kind) {
+				continue
+			}
+			if _, recorded := reg.Unproved[oc.o.Name]; !recorded && claimed[group(oc.o)] {
+				retry = append(retry, oc.o)
+				inRetry[oc.o.Name] = true
+			}
+		}
+	}
 	sort.Slice(retry, func(i, j int) bool { return retry[i].Name < retry[j].Name })
 	if len(retry) > 0 {
 		// in batches: once eight obligations have failed the long retry as well, the tree
@@ -586,7 +605,13 @@ func (w *World) checkProperty(p, tier string, seed int, g *generated, reg *Regis
 			if confirmed >= 8 && tier != "thorough" {
 				break
 			}
-			rr := runAll(retry[start:end], outDir, timeout*4, 4, []string{"z3-new", "z3", "cvc5", "cvc5-enum"}, false)
+			// quick tier: 3x the normal timeout (every registered obligation discharged in under a
+			// fifth of the normal timeout when it was registered); thorough: its own, longer one
+			retryT := timeout * 3
+			if tier == "thorough" {
+				retryT = timeout * 2
+			}
+			rr := runAll(retry[start:end], outDir, retryT, 4, []string{"z3-new", "z3", "cvc5", "cvc5-enum"}, false)
 			for _, r := range rr {
 				oc := byName[r.o.Name]
 				if r.v.Status == "unsat" {
@@ -716,10 +741,40 @@ func (w *World) checkProperty(p, tier string, seed int, g *generated, reg *Regis
 			retired = append(retired, name)
 		}
 	}
+	// A contract clause is claimed for the whole function: when some obligations of a
+	// clause (its group) are registered, an obligation of the same clause that is new
+	// (a new return point, a new back edge) and does not discharge breaks the claim,
+	// replayable or not. What did not discharge on the pinned tree either is on
+	// record (Registry.Unproved); a renamed one of those must not raise an alarm, so
+	// only the excess over the recorded number of undecided members counts.
+	regInGroup, unprovedInGroup, failingInGroup := map[string]int{}, map[string]int{}, map[string]int{}
+	for name, e := range reg.Obligations {
+		if contractDerived(e.Kind) && serves(e.Props, p) {
+			regInGroup[groupOf(name, e.Kind)]++
+		}
+	}
+	for name := range reg.Unproved {
+		if k := kindOfName(name); contractDerived(k) {
+			unprovedInGroup[groupOf(name, k)]++
+		}
+	}
+	for _, oc := range outcomes {
+		if oc.status == "" && !oc.reg && !oc.o.Cover && !oc.ok && contractDerived(oc.o.Kind) && knownFor(oc.o.Name) == nil {
+			failingInGroup[group(oc.o)]++
+		}
+	}
 	// unregistered obligations
 	for _, oc := range outcomes {
 		if oc.status != "" || oc.reg {
 			continue
+		}
+		if !oc.o.Cover && !oc.ok && contractDerived(oc.o.Kind) && knownFor(oc.o.Name) == nil {
+			g := group(oc.o)
+			if _, recorded := reg.Unproved[oc.o.Name]; !recorded && regInGroup[g] > 0 && failingInGroup[g] > unprovedInGroup[g] {
+				oc.status = "violation"
+				reportViolation(oc, oc.o.Name, "a new obligation of the claimed contract clause "+g+" is not discharged ("+oc.v.Status+")")
+				continue
+			}
 		}
 		if oc.o.Cover {
 			if oc.v.Status == "unsat" {
@@ -825,6 +880,19 @@ func (w *World) checkProperty(p, tier string, seed int, g *generated, reg *Regis
 				ghostDefs(w.contracts[a], a, trusted)
 			}
 			ghostDefs(w.contracts[oc.o.Func], oc.o.Func, trusted)
+			for name := range oc.o.vc.uses {
+				if m := w.specs[name]; m != nil {
+					n := 0
+					for _, sf := range m.Forms {
+						if sf.Axiom {
+							n++
+						}
+					}
+					if n > 0 {
+						trusted[fmt.Sprintf("the %d axioms of spec module specs/%s.smt2 (properties of uninterpreted specification functions, assumed)", n, name)] = true
+					}
+				}
+			}
 		}
 		if len(samples) < 6 && oc.ok && !oc.o.Cover {
 			samples = append(samples, map[string]interface{}{"obligation": oc.o.Name, "kind": oc.o.Kind, "at": oc.o.Pos, "clause": oc.o.Desc, "verdict": oc.v.Status, "solver": oc.v.Solver, "seconds": round2(oc.v.Seconds), "smt_file": oc.v.File})
